@@ -502,6 +502,21 @@ Theorem C06_model_is_source_plate_name : forall (pid : Z) (v : view), screen_wf 
 Proof. exact src_plate_name_is_scores_plate_name. Qed.
 Print Assumptions C06_model_is_source_plate_name.
 
+(* ---- SizeScorer.score (scoring/size.py), re-translated on every run (Generated/SrcScoring.v, configuration L10B_SIZE_SCORER;
+   proof Proofs/C06SourceSize.v): on every plates dict - its keys are distinct, as in any Python dict - the scores dict has the
+   same plate ids in the same order, each with the number of rows of its plate; the other four arguments are not read ---- *)
+From Batchie Require Lib.PyRt Proofs.C06SourceSize.
+Theorem C06_model_is_source_size_scorer_score : forall plates : list (Z * subset),
+  NoDup (map fst plates) -> src_size_scorer_score plates = Ok (size_scorer plates).
+Proof. exact C06SourceSize.src_size_scorer_is_model. Qed.
+Print Assumptions C06_model_is_source_size_scorer_score.
+
+(* without the side condition: the comprehension inserts from the left (a repeated key keeps its place, gets the last size) *)
+Theorem C06_model_is_source_size_scorer_score_general : forall plates : list (Z * subset),
+  src_size_scorer_score plates
+  = Ok (fold_left (fun d x => PyRt.dict_set d (fst x) (Z.of_nat (length (snd x)))) plates []).
+Proof. exact C06SourceSize.src_size_scorer_general. Qed.
+Print Assumptions C06_model_is_source_size_scorer_score_general.
 (* ---- the argument-handling glue of select_next_plate is what the source says NOW ----
    `src_sn_get_args` is the WHOLE function get_args of /repo's current batchie/cli/select_next_plate.py (parser.parse_args() is the primitive that
    yields the raw namespace; the statements after it - class lookup by name, required-argument annotations, cast of the KEY=VALUE
